@@ -310,6 +310,16 @@ def REWIRE(K=0, horizon=6, ops=None):
     return spec(f'REWIRE[K{K}]', devs, horizon, ops, K)
 
 
+def REWIRE2(K=0, horizon=6, ops=None):
+    '''Re-wiring by editing the list the `upstream` getter returned: a consumer drops one of its two feeders, gets it
+    back, a second consumer is attached to a feeder that is blocked at that moment.'''
+    devs = [src('A', 1), src('B', 2), proc('X', ['A', 'B'], 2), sink('K', ['X']), proc('Y', [], 1), sink('K2', ['Y'])]
+    if ops is None:
+        ops = [('upstream_edit', 'X', ['A'], []), ('upstream_edit', 'X', [], ['A']), ('upstream_edit', 'Y', [], ['A']),
+               ('upstream_edit', 'X', ['B'], []), ('upstream_edit', 'Y', ['A'], [])]
+    return spec(f'REWIRE2[K{K}]', devs, horizon, ops, K)
+
+
 def FANOUT(K=0, horizon=6, ops=None):
     devs = [src('S', 1), buf('B', ['S'], 2), proc('M1', ['B'], 2), proc('M2', ['B'], 3), sink('K', ['M1', 'M2'])]
     if ops is None:
